@@ -584,6 +584,9 @@ func c15Reports(c *engine.Ctx, rule string, m *mqFacts) {
 				got = fmt.Sprintf("%s release(s) of msgSize before %s", s.Count, describeStop(c, s.At))
 			}
 		}
+		if !ok && exactlyOneByEvaluation(f.Blocks[0], isRel, nil) {
+			ok = true
+		}
 		c.Decide(rule, key, f.Pos(), ok, "publishes "+kind+" and releases (mq.p, metadata.msgSize) exactly once on every path", "terminal report "+kind+": "+got)
 	}
 	// (b) per extract site: exactly one terminal report
@@ -641,6 +644,9 @@ func c15Reports(c *engine.Ctx, rule string, m *mqFacts) {
 					ok = false
 					bad = fmt.Sprintf("%s terminal report(s) (sent/error) between a successful extract and %s", s.Count, describeStop(c, s.At))
 				}
+			}
+			if !ok && exactlyOneByEvaluation(start, m.isTerminalCall, isExtract) {
+				ok, bad = true, "" // counts merged at a join; with flags kept concrete every path has exactly one report
 			}
 			c.Decide(rule, key, ci.Instr.Pos(), ok, "exactly one of publish-sent / publish-error on every path from a successful extract to the next extract or return", bad)
 		}
